@@ -69,7 +69,7 @@ static GenOptions optionsFor(const std::string& profile, bool thorough) {
   GenOptions o;
   o.maxKeys = thorough ? 24 : 10;
   if (profile == "c03") { o.hostileNames = true; o.hostileValues = true; o.largeValues = thorough; }
-  if (profile == "c07") { o.allowCycles = true; o.maxKeys = thorough ? 14 : 8; }
+  if (profile == "c07" || profile == "c07e") { o.allowCycles = true; o.singleUse = false;   /* a single-use edge is deliberately forgotten by the engine, so "requires a cycle" is not well defined through it */ o.maxKeys = thorough ? 14 : 8; }
   if (profile == "c06") { o.maxKeys = 9; }
   if (profile == "c20") { o.hostileNames = true; o.hostileValues = true; o.singleUse = false; }
   return o;
@@ -106,6 +106,35 @@ static std::string histStr(const std::vector<Op>& h) {
     }
   }
   return s;
+}
+
+
+// C07 enumeration: every directed graph on 3 keys with edges in {absent, static, dynamic} (729) and every directed graph on
+// 4 keys with static edges (4096). Key 0 is an input that every computed key reads first (it is the trigger of dynamic edges).
+static const uint64_t kEnumA = 729, kEnumB = 4096;
+static void enumProgram(uint64_t index, Program& p, std::vector<Op>& hist) {
+  index %= (kEnumA + kEnumB);
+  unsigned n; std::vector<int> edge;   // 0 absent, 1 static, 2 dynamic; order: for i, for j != i
+  if (index < kEnumA) { n = 3; uint64_t x = index; for (int e = 0; e < 6; ++e) { edge.push_back((int)(x % 3)); x /= 3; } }
+  else { n = 4; uint64_t x = index - kEnumA; for (int e = 0; e < 12; ++e) { edge.push_back((int)(x & 1)); x >>= 1; } }
+  p = Program();
+  KeyDef in; in.name = "in"; in.isInput = true; p.keys.push_back(in);
+  unsigned fire = (unsigned)(hashStr("0") % 2);
+  size_t e = 0;
+  for (unsigned i = 0; i < n; ++i) {
+    KeyDef k; k.name = "k" + std::to_string(i); k.statics.push_back({0, Normal});
+    std::vector<int> dynTargets;
+    for (unsigned j = 0; j < n; ++j) { if (j == i) continue; int kind = edge[e++]; if (kind == 1) k.statics.push_back({(int)j + 1, Normal}); else if (kind == 2) dynTargets.push_back((int)j + 1); }
+    for (int tgt : dynTargets) { Dyn d; d.onInput = 0; d.pmod = 2; d.prem = fire; d.req = {tgt, Normal}; k.dyns.push_back(d); }
+    p.keys.push_back(k);
+  }
+  hist.clear();
+  auto buildAll = [&]() { for (unsigned i = 0; i < n; ++i) { Op o; o.kind = Op::Build; o.key = (int)i + 1; hist.push_back(o); } };
+  buildAll();
+  { Op o; o.kind = Op::Set; o.key = 0; o.val = "1"; hist.push_back(o); }
+  buildAll();
+  { Op o; o.kind = Op::Set; o.key = 0; o.val = "0"; hist.push_back(o); }
+  { Op o; o.kind = Op::Build; o.key = (int)n; hist.push_back(o); }
 }
 
 struct EngineBox {  // one engine instance (+ its front end)
@@ -190,6 +219,7 @@ static CaseResult runCase(const CaseSpec& spec, bool thorough) {
   Program prog = generate(r, go);
   std::vector<Op> hist = genHistory(r, prog, spec.profile, thorough);
   bool useDB = r.chance(1, 2) || spec.profile == "c03" || spec.profile == "c04";
+  if (spec.profile == "c07e") { enumProgram(spec.index, prog, hist); useDB = (spec.index & 1) != 0; }
   uint32_t clientVersion = 1 + (uint32_t)r.below(5);
   vf::Rng sr(spec.schedSeed ? spec.schedSeed : r.next());
   res.programDesc = describe(prog); res.historyDesc = histStr(hist) + (useDB ? "[db]" : "[nodb]");
@@ -199,7 +229,7 @@ static CaseResult runCase(const CaseSpec& spec, bool thorough) {
 
   Ctx cx; cx.init(prog); cx.tag = specStr(spec);
   cx.capiVocabulary = spec.capi;
-  cx.resolveCycles = spec.profile == "c07" && r.chance(1, 4);
+  cx.resolveCycles = (spec.profile == "c07" || spec.profile == "c07e") && r.chance(1, 4);
   cx.fatal = [&](const char* why) {
     for (auto& v : cx.violations) emitViolation(spec, v, &res);
     printf("{\"stalled_case\":%llu,\"why\":\"%s\"}\n", (unsigned long long)spec.index, why);
@@ -238,15 +268,15 @@ static CaseResult runCase(const CaseSpec& spec, bool thorough) {
       cx.sched = sm == 0 ? Sched::S0Sync : sm == 3 ? Sched::S2Threads : Sched::S1Deferred;
       if (sm != 2) { cx.chooser = Chooser(); cx.chooser.random = true; cx.chooser.rng = vf::Rng(sr.next()); }
       cx.cancelAtStep = (spec.cancelBuild == buildIdx && sm != 3) ? spec.cancelStep : -1;
+      gHookCtx = &cx; gBuildActive = true;
+      size_t execBefore = cx.nExecuted, utdBefore = cx.nUpToDate;
+      cx.beginBuild(op.key);
       std::thread canceller;
       if (sm == 3 && spec.cancelBuild == buildIdx) {   // foreign-thread cancellation at a random moment
         unsigned us = (unsigned)sr.below(spec.cancelStep > 0 ? (uint64_t)spec.cancelStep : 300);
         EngineFront* f = front.get(); Ctx* c = &cx;
         canceller = std::thread([=]() { usleep(us); f->cancel(); c->cancelIssuedAtomic = true; });
       }
-      gHookCtx = &cx; gBuildActive = true;
-      size_t execBefore = cx.nExecuted, utdBefore = cx.nUpToDate;
-      cx.beginBuild(op.key);
       std::string result = front->build(prog.keys[op.key].name);
       if (canceller.joinable()) canceller.join();
       cx.endBuild(result);
@@ -300,6 +330,130 @@ static void report(const CaseSpec& s, const CaseResult& r, Totals& t) {
   for (auto& v : r.violations) { emitViolation(s, v, &r); ++t.violations; }
 }
 
+
+// ------------------------------------------------------------------------------------------------ C03: versions and locking
+#include <sqlite3.h>
+static std::string fileBytes(const std::string& p) {
+  std::string o; FILE* f = fopen(p.c_str(), "rb"); if (!f) return "<absent>"; char b[65536]; size_t n; while ((n = fread(b, 1, sizeof b, f)) > 0) o.append(b, n); fclose(f); return o;
+}
+static std::string dumpDB(const std::string& path, uint32_t cv) {
+  std::string err; std::unique_ptr<BuildDB> db = createSQLiteBuildDB(path, cv, false, &err); DBReader rd; db->attachDelegate(&rd);
+  bool ok = true; Epoch ep = db->getCurrentEpoch(&ok, &err); if (!ok) return "ERR:" + err;
+  std::vector<KeyType> keys; std::vector<Result> res; if (!db->getKeysWithResult(keys, res, &err)) return "ERR:" + err;
+  std::vector<std::string> rows;
+  for (size_t i = 0; i < keys.size(); ++i) { std::string r = vf::hex(keys[i].str()) + "=" + vf::hex(toStr(res[i].value)) + "@" + std::to_string(res[i].builtAt) + "," + std::to_string(res[i].computedAt) + "[";
+    for (auto d : res[i].dependencies) r += vf::hex(rd.nameOf(d.keyID)) + (d.orderOnly ? "o" : "") + (d.singleUse ? "s" : "") + ","; rows.push_back(r + "]"); }
+  std::sort(rows.begin(), rows.end());
+  std::string o = "epoch=" + std::to_string(ep) + ";"; for (auto& r : rows) o += r + ";"; return o;
+}
+
+// One version scenario: write a database under (schema, client A); reopen under client B and/or a rewritten schema number.
+static CaseResult runVersionCase(const CaseSpec& spec, Totals& t) {
+  CaseResult res;
+  vf::Rng r(spec.seed * 7777ull + spec.index);
+  GenOptions go; go.maxKeys = 6; Program prog = generate(r, go);
+  res.programDesc = describe(prog);
+  std::string dbPath = gDbDir + "/ver-" + std::to_string(getpid()) + ".db"; unlink(dbPath.c_str());
+  static const uint32_t clients[] = {0, 1, 2, 7, 255, 0x7fffffff};
+  uint32_t ca = clients[spec.index % 6], cb = clients[(spec.index / 6) % 6];
+  int schemaRewrite = (int)((spec.index / 36) % 4);   // 0 none, 1 -> older (17), 2 -> newer (+1), 3 -> garbage (-5)
+  bool recreate = ((spec.index / 144) % 2) == 0;
+  int target = (int)prog.keys.size() - 1;
+  Ctx cx; cx.init(prog); cx.tag = specStr(spec);
+  std::vector<std::string> firstValues;
+  { // write
+    CppFront f(cx); std::string err; if (!f.attachDB(dbPath, ca, true, &err)) cx.viol("versions: cannot create database", err);
+    gHookCtx = &cx; cx.beginBuild(target); std::string v = f.build(prog.keys[target].name); cx.endBuild(v); gHookCtx = nullptr;
+  }
+  int storedSchema = -1;
+  { sqlite3* db = nullptr; sqlite3_open(dbPath.c_str(), &db); sqlite3_stmt* st = nullptr;
+    if (sqlite3_prepare_v2(db, "SELECT version FROM info", -1, &st, nullptr) == SQLITE_OK && sqlite3_step(st) == SQLITE_ROW) storedSchema = sqlite3_column_int(st, 0);
+    sqlite3_finalize(st);
+    if (schemaRewrite) { int nv = schemaRewrite == 1 ? storedSchema - 1 : schemaRewrite == 2 ? storedSchema + 1 : -5; std::string q = "UPDATE info SET version = " + std::to_string(nv); char* e = nullptr; sqlite3_exec(db, q.c_str(), nullptr, nullptr, &e); }
+    sqlite3_close(db); }
+  bool mismatch = (ca != cb) || schemaRewrite != 0;
+  std::string before = fileBytes(dbPath);
+  size_t executedBefore = cx.nExecuted;
+  { // reopen
+    std::string err;
+    CppFront f(cx);
+    bool ok = f.attachDB(dbPath, cb, recreate, &err);
+    if (mismatch && !recreate) {
+      if (ok) cx.viol("versions: database written under a different schema/client version was attached without error although recreation was not allowed", "clientA=" + std::to_string(ca) + " clientB=" + std::to_string(cb) + " schemaRewrite=" + std::to_string(schemaRewrite));
+      if (fileBytes(dbPath) != before) cx.viol("versions: rejected database file was modified", "");
+    } else {
+      if (!ok) cx.viol("versions: attach failed", err + " clientA=" + std::to_string(ca) + " clientB=" + std::to_string(cb) + " schemaRewrite=" + std::to_string(schemaRewrite));
+      else {
+        if (mismatch) cx.forgetEngineState();   // nothing stored under the other version may be interpreted: the monitors now treat every key as never built
+        else cx.engineRestartedOnDB();
+        gHookCtx = &cx; cx.beginBuild(target); std::string v = f.build(prog.keys[target].name); cx.endBuild(v); gHookCtx = nullptr;
+        if (mismatch && cx.nPrior) cx.viol("versions: a result stored under a different version was handed to a task as prior value", "");
+        if (!mismatch && cx.nExecuted != executedBefore) cx.viol("versions: matching versions but stored results were not reused", "");
+      }
+    }
+  }
+  res.builds = 2; res.violations = cx.violations; res.executed = cx.nExecuted; res.upToDate = cx.nUpToDate; res.nontrivial = mismatch;
+  res.shapeHash = vf::fnv(std::to_string(ca) + "/" + std::to_string(cb) + "/" + std::to_string(schemaRewrite) + "/" + std::to_string(recreate));
+  res.historyDesc = "clientA=" + std::to_string(ca) + " clientB=" + std::to_string(cb) + " storedSchema=" + std::to_string(storedSchema) + " schemaRewrite=" + std::to_string(schemaRewrite) + " recreate=" + std::to_string(recreate);
+  unlink(dbPath.c_str());
+  (void)t;
+  return res;
+}
+
+// Lock contest: engine A is inside build() (transaction open, task parked); engine B tries to build on the same file.
+static CaseResult runLockCase(const CaseSpec& spec) {
+  CaseResult res;
+  vf::Rng r(spec.seed * 991ull + spec.index);
+  GenOptions go; go.maxKeys = 6; Program prog = generate(r, go);
+  res.programDesc = describe(prog);
+  std::string dbPath = gDbDir + "/lock-" + std::to_string(getpid()) + ".db"; unlink(dbPath.c_str());
+  int target = (int)prog.keys.size() - 1;
+  bool attachFirst = spec.index % 2 == 0;
+  // reference: A alone
+  std::string refDump;
+  { Ctx c0; c0.init(prog); CppFront f(c0); std::string err; f.attachDB(dbPath, 1, true, &err); gHookCtx = &c0; c0.beginBuild(target); std::string v = f.build(prog.keys[target].name); c0.endBuild(v); gHookCtx = nullptr; }
+  refDump = dumpDB(dbPath, 1); unlink(dbPath.c_str());
+  Ctx ca; ca.init(prog); ca.sched = Sched::S1Deferred; ca.chooser.random = true; ca.chooser.rng = vf::Rng(5); ca.tag = specStr(spec);
+  Ctx cb; cb.init(prog); cb.tag = "engine-B";
+  // B changes an input so that, if it could write, the file would differ
+  std::unique_ptr<CppFront> fb;
+  bool contested = false; std::string bResult = "<not run>"; bool bAttachOk = true; std::string bErr;
+  CppFront fa(ca); std::string err; if (!fa.attachDB(dbPath, 1, true, &err)) ca.viol("lock: attach A failed", err);
+  if (attachFirst) { fb.reset(new CppFront(cb)); bAttachOk = fb->attachDB(dbPath, 1, true, &bErr); if (!bAttachOk) cb.viol("lock: attach B before the contest failed", bErr); }
+  struct Hooked { Ctx* a; std::function<void()> contest; bool done = false; } hk{&ca, nullptr};
+  hk.contest = [&]() {
+    contested = true;
+    Ctx* saved = gHookCtx.exchange(&cb);
+    for (size_t i = 0; i < prog.keys.size(); ++i) if (prog.keys[i].isInput) cb.world.ext[i] = "9";
+    if (!attachFirst) { fb.reset(new CppFront(cb)); bAttachOk = fb->attachDB(dbPath, 1, true, &bErr); }
+    if (bAttachOk) { cb.monitorsOn = false; cb.beginBuild(target); bResult = fb->build(prog.keys[target].name); cb.endBuild(bResult); }
+    gHookCtx = saved;
+  };
+  // wrap A's hook: first BeforeWait triggers the contest
+  static Hooked* gH; gH = &hk;
+  verif::setEngineHook([](void*, BuildEngine&, verif::EnginePoint p) {
+    if (Ctx* c = gHookCtx.load()) { if (gH && c == gH->a && p == verif::EnginePoint::BeforeWait && !gH->done) { gH->done = true; gH->contest(); } c->onHook((int)p); }
+  }, nullptr);
+  // make sure at least one task parks: force deferred completion for all
+  ca.chooser.prefix.assign(64, 1); ca.chooser.random = false;
+  gHookCtx = &ca; ca.beginBuild(target); std::string va = fa.build(prog.keys[target].name); ca.endBuild(va); gHookCtx = nullptr;
+  installHook(); gH = nullptr;
+  res.violations = ca.violations; for (auto& v : cb.violations) res.violations.push_back(v);
+  if (contested) {
+    if (attachFirst || bAttachOk) {
+      if (bAttachOk && !bResult.empty() && bResult != "<not run>") res.violations.push_back({"lock: a second engine completed a build on a database while another build held it", "B result=" + vf::hex(bResult.substr(0, 32))});
+      if (bAttachOk && cb.errors.empty()) res.violations.push_back({"lock: a second engine's build on a held database reported no error", ""});
+    }
+    std::string after = dumpDB(dbPath, 1);
+    if (after != refDump) res.violations.push_back({"lock: database content after a contested build differs from an uncontested run", "ref=" + refDump.substr(0, 300) + " got=" + after.substr(0, 300)});
+  }
+  res.builds = 3; res.nontrivial = contested; res.shapeHash = vf::fnv(res.programDesc) + attachFirst;
+  res.historyDesc = std::string("contested=") + (contested ? "1" : "0") + " attachFirst=" + (attachFirst ? "1" : "0") + " B.attach=" + (bAttachOk ? "ok" : "err:" + bErr.substr(0, 80)) + " B.errors=" + (cb.errors.empty() ? "" : cb.errors[0].substr(0, 120));
+  fb.reset();
+  unlink(dbPath.c_str());
+  return res;
+}
+
 int main(int argc, char** argv) {
   vf::Args a(argc, argv);
   CaseSpec base; base.seed = a.u("seed", 1); base.profile = a.s("profile", "c01"); base.capi = a.has("capi");
@@ -338,9 +492,9 @@ int main(int argc, char** argv) {
     auto sampleFrom = [&](const CaseResult& r) {
       if (t.sample.empty() && r.nontrivial) t.sample = "{\"program\":" + r.programDesc + ",\"history\":" + vf::jstr(r.historyDesc) + ",\"last_build\":" + vf::jstr(r.traces.empty() ? "" : r.traces.back()) + "}";
     };
-    if (base.profile == "c01" || base.profile == "c02" || base.profile == "c07") {
+    if (base.profile == "c01" || base.profile == "c02" || base.profile == "c07" || base.profile == "c07e") {
       CaseResult r = runCase(s, thorough); t.add(r); report(s, r, t); sampleFrom(r);
-      if (base.profile == "c07") {   // the same case under the other schedules
+      if (base.profile == "c07" || base.profile == "c07e") {   // the same case under the other schedules
         for (int sm = 0; sm < 2; ++sm) { CaseSpec s2 = s; s2.schedMode = sm; s2.schedSeed = 77 + sm; gCurrentCase = specStr(s2); CaseResult r2 = runCase(s2, thorough); t.add(r2); report(s2, r2, t); }
       }
     } else if (base.profile == "c03" || base.profile == "c20") {
@@ -364,6 +518,12 @@ int main(int argc, char** argv) {
           }
         }
       }
+    } else if (base.profile == "c03v") {
+      CaseResult r = runVersionCase(s, t); t.add(r); report(s, r, t);
+      if (t.sample.empty()) t.sample = vf::jstr(r.historyDesc);
+    } else if (base.profile == "c03l") {
+      CaseResult r = runLockCase(s); t.add(r); report(s, r, t);
+      if (t.sample.empty()) t.sample = vf::jstr(r.historyDesc);
     } else if (base.profile == "c05") {
       // base run without cancellation gives the number of steps of every build; then cancel at chosen steps
       CaseSpec sbase = s; sbase.schedMode = 1; sbase.schedSeed = 1000 + i;
